@@ -152,6 +152,15 @@ Section ChatPrompt.
     end.
 End ChatPrompt.
 
+(** ** server/routes.go ChatHandler: the conversation handed to chatPrompt is the model's own messages followed by the
+    request's, with the model's system prompt in front unless the request starts with a system message *)
+Definition chat_msgs (system : str) (model_msgs req : list msg) : list msg :=
+  let msgs := model_msgs ++ req in
+  match req with
+  | r0 :: _ => if negb (is_system r0) && negb (is_nil system) then mkMsg s_system system [] :: msgs else msgs
+  | [] => msgs
+  end.
+
 (** ** token counters used by the harness *)
 Definition is_space (b : N) : bool := (b =? 32) || ((9 <=? b) && (b <=? 13)).
 Fixpoint count_fields_aux (inword : bool) (s : str) : N :=
